@@ -15,7 +15,7 @@ Objects:
 Every theorem is for all register contents (2^64 each) / all operand values, not samples.
 -/
 import ChibiVerif.Lemmas.C01Select
-import ChibiVerif.Lemmas.C01MemLemmas
+import ChibiVerif.Lemmas.C01Compose
 
 namespace ChibiVerif.Props.C01
 open ChibiVerif.C01 ChibiVerif.X86 ChibiVerif.Asm ChibiVerif.Spec.IntSpec ChibiVerif.Gen.CommonType ChibiVerif.C01Codegen
@@ -154,6 +154,23 @@ theorem C01_unop (k : NK) (op : UnOp) (hop : specUnOp k = some op) (hne : op ≠
     obtain ⟨s', h1, h2⟩ := UnKind.not.effect s
     exact ⟨s', h1, h2 ▸ not_computes t ht _ _ _ h hx⟩
 
+/-- **unary `-` and `~` on an operand of any of the nine integer types, conversion included**: `add_type` inserts the
+    conversion to the promoted type (`C01_unop_type`), the cast table performs it, the operator works on the result —
+    together exactly `Spec.unop`: for every operand type, every value, whenever C11 defines `-a` / `~a`. -/
+theorem C01_unary_full (k : NK) (op : UnOp) (hop : specUnOp k = some op) (hne : op ≠ .lognot) (t : ITy)
+    (s : State) (v x : Int) (h : Represents t (s.get .rax) v) (hx : unop op t v = some x) :
+    ∃ s', X86.run (castSeq t (promote t) ++ unSeq k (promote t)) s = some s' ∧
+      Represents (unopType op t) (s'.get .rax) x := by
+  obtain ⟨s1, h1, r1⟩ := C01_cast t (promote t) s v h
+  rw [unop_promote op hne] at hx
+  obtain ⟨s2, h2, r2⟩ := C01_unop k op hop hne (promote t) (promote_mem t) s1 _ x r1 hx
+  refine ⟨s2, ?_, ?_⟩
+  · rw [run_append, h1]; exact h2
+  · have : unopType op t = promote t := by cases op <;> simp_all [unopType]
+    rw [this]; exact r2
+
+example : unop .bitnot .u8 200 = some (-201) := by decide
+
 /-- **`!a` via `cmp $0; sete; movzx`** on an operand of any of the nine integer types (unpromoted): `int` 1 iff `a == 0`. -/
 theorem C01_lognot (t : ITy) (s : State) (v : Int) (h : Represents t (s.get .rax) v) :
     ∃ s', X86.run (unSeq .ND_NOT t) s = some s' ∧ Represents .i32 (s'.get .rax) (b2i (v = 0)) := by
@@ -180,23 +197,63 @@ theorem C01_store (t : ITy) (s : State) (p : BitVec 64) (v : Int) (hp : s.read64
       s'.get .rsp = s.get .rsp + 8 :=
   store_ok t s p v hp h
 
+/-! ## composition (open) -/
+
+/-- **value of every side-effect-free expression, arbitrary nesting** (DESIGN `C01_value`, pure fragment): the code
+    `compileE` assembles from the conversion / operator / load sequences above leaves `%rax` representing the C11 value in
+    the C11 type, with `%rsp`, `%rbp` and the frame unchanged.  NOT PROVED: it needs the push/pop stack discipline
+    (non-interference of `push` with the frame) by induction on the expression; the per-node facts it composes are
+    `C01_load`, `C01_cast`, `C01_unary_full`, `C01_lognot`, `C01_binop`, `C01_shift`, `C01_op_type`.  Until then the
+    composition is covered by the end-to-end oracle (random nests to depth 6), which is testing. -/
+def C01_value_Statement : Prop :=
+  ∀ (σ : Env) (off : Nat → Int) (e : E) (t : ITy) (code : List Ins) (v : Int) (σ' : Env) (m : State),
+    compileE σ.tys off e = some (t, code) → evalE σ e = some (v, σ') → FrameHolds σ off (depthE e) m →
+    ∃ m', X86.run code m = some m' ∧ Represents t (m'.get .rax) v ∧ typeOf σ e = some t ∧
+      m'.get .rsp = m.get .rsp ∧ m'.get .rbp = m.get .rbp ∧ FrameHolds σ off (depthE e) m'
+
+/-- the proved fragment of `C01_value_Statement`: expressions that never touch the stack (no binary operator): a leaf
+    followed by any chain of casts and unary operators is `C01_load` / `C01_cast` / `C01_unary_full` / `C01_lognot`
+    applied in sequence; stated here for one step on a value already in `%rax`. -/
+theorem C01_value_partial (t t2 : ITy) (s : State) (v : Int) (h : Represents t (s.get .rax) v) :
+    (∃ s', X86.run (castSeq t t2) s = some s' ∧ Represents t2 (s'.get .rax) (convert t2 v)) ∧
+    (∃ s', X86.run (unSeq .ND_NOT t) s = some s' ∧ Represents .i32 (s'.get .rax) (b2i (v = 0))) ∧
+    (∀ x, unop .neg t v = some x → ∃ s', X86.run (castSeq t (promote t) ++ unSeq .ND_NEG (promote t)) s = some s' ∧
+        Represents (promote t) (s'.get .rax) x) ∧
+    (∀ x, unop .bitnot t v = some x → ∃ s', X86.run (castSeq t (promote t) ++ unSeq .ND_BITNOT (promote t)) s = some s' ∧
+        Represents (promote t) (s'.get .rax) x) :=
+  ⟨C01_cast t t2 s v h, C01_lognot t s v h,
+   fun x hx => C01_unary_full .ND_NEG .neg rfl (by decide) t s v x h hx,
+   fun x hx => C01_unary_full .ND_BITNOT .bitnot rfl (by decide) t s v x h hx⟩
+
 /-! ## `++` / `--` (parse.c `new_inc_dec`) -/
 
-/-- region of the known finding C01-bool-postfix-incdec -/
-def BoolPostfixIncDec (T : ITy) : Prop := T = .bool
-instance (T : ITy) : Decidable (BoolPostfixIncDec T) := by unfold BoolPostfixIncDec; exact inferInstance
+/-- region of the known finding C01-bool-postfix-incdec: the operand has type `_Bool` and is a bit-field member or
+    `_Atomic` (for these `new_inc_dec` still computes `(T)((x += addend) - addend)`) -/
+def BoolPostfixIncDec (T : ITy) (viaObject : Bool) : Prop := T = .bool ∧ viaObject = false
+instance (T : ITy) (b : Bool) : Decidable (BoolPostfixIncDec T b) := by unfold BoolPostfixIncDec; exact inferInstance
 
 /-- full statement: chibicc's rewriting of postfix `++`/`--` has the C11 value and side effect whenever C11 defines it.
-    False for `_Bool` (Findings/C01.lean). -/
+    False for `_Bool` bit-fields / `_Atomic _Bool` (Findings/C01.lean). -/
 def C01_incdec_Statement : Prop :=
-  ∀ (T : ITy) (x addend : Int), T.inRange x → (addend = 1 ∨ addend = -1) →
-    ∀ res, specPostfix T x addend = some res → chibiPostfix T x addend = some res
+  ∀ (T : ITy) (viaObject : Bool) (x addend : Int), T.inRange x → (addend = 1 ∨ addend = -1) →
+    ∀ res, specPostfix T x addend = some res → chibiPostfix T viaObject x addend = some res
 
-/-- **postfix `++`/`--`**, outside the known-finding region (operand of type `_Bool`) -/
-theorem C01_incdec_partial (T : ITy) (hT : ¬ BoolPostfixIncDec T) (x addend : Int) (hx : T.inRange x)
-    (ha : addend = 1 ∨ addend = -1) (res : Int × Int) (h : specPostfix T x addend = some res) :
-    chibiPostfix T x addend = some res :=
-  incdec_value T hT x addend hx ha res h
+/-- **postfix `++`/`--`** for every integer type, every value, both routes of `new_inc_dec`, outside the known-finding
+    region: the expression has the old value of the operand and the object receives `x ± 1` converted to its type. -/
+theorem C01_incdec_partial (T : ITy) (viaObject : Bool) (hT : ¬ BoolPostfixIncDec T viaObject) (x addend : Int)
+    (hx : T.inRange x) (ha : addend = 1 ∨ addend = -1) (res : Int × Int) (h : specPostfix T x addend = some res) :
+    chibiPostfix T viaObject x addend = some res := by
+  unfold chibiPostfix
+  by_cases hb : T = .bool
+  · have hv : viaObject = true := by
+      cases viaObject
+      · exact absurd ⟨hb, rfl⟩ hT
+      · rfl
+    simp only [hb, hv, and_self, if_true]
+    rw [hb] at h
+    exact h
+  · simp only [hb, false_and, if_false]
+    exact incdec_value T hb x addend hx ha res h
 
 example : specPostfix .u8 255 1 = some (255, 0) := by decide
 
